@@ -11,7 +11,7 @@
 
   The model mirrors the Go code *branch by branch, including its quirks* (fields that `subshell`
   does not copy, `break` taking effect only when control is back in `loopStmtsBroken`, `stop()`
-  being disabled while a trap runs, the `for` loop not checking `stop()` …).  What bash does is
+  being disabled while a trap runs …).  What bash does is
   the business of `ShVerif.Model.L5Bash`, not of this file.
 -/
 namespace ShVerif.L5
@@ -229,10 +229,12 @@ def loopStmtsBroken (f : Stmt → St → Option St) (b : Prog) (s : St) : Option
   | none => none
   | some (s1, br) => some ({ s1 with inLoop := s.inLoop }, br)
 
-/-- The `for _, field := range items` loop of `ForClause`/`WordIter`: no `stop()` check. -/
+/-- The `for _, field := range items` loop of `ForClause`/`WordIter`, with its `r.stop(ctx)` check
+    at the top of each iteration. -/
 def forLoop (f : Stmt → St → Option St) (x : Str) (b : Prog) : List Str → St → Option St
   | [], s => some s
   | it :: rest, s =>
+    if stop s then some s else
     match loopStmtsBroken f b { s with vars := (x, it) :: s.vars } with
     | none => none
     | some (s1, br) => if br then some s1 else forLoop f x b rest s1
